@@ -50,6 +50,8 @@ def instances(tier, seed):
     for n1, n2 in ((3, 3), (2, 4), (4, 2), (1, 3)):
         out.append(dict(label=f'set_linked_disc n={n1},{n2}', kind='set_linked_disc', ns=[n1, n2], src=0))
     out.append(dict(label='set_linked_disc n=3,2,3 src=2', kind='set_linked_disc', ns=[3, 2, 3], src=2))
+    out.append(dict(label='set_linked_disc n=2,4,4 src=2', kind='set_linked_disc', ns=[2, 4, 4], src=2))
+    out.append(dict(label='set_linked_disc n=4,2,4 src=0', kind='set_linked_disc', ns=[4, 2, 4], src=0))
     out.append(dict(label='set_linked_mixed', kind='set_linked_mixed'))
     out.append(dict(label='set_other_untouched', kind='set_other'))
     widths = [(16, 30), (32, 30), (64, 30)] if tier == 'quick' else [(16, 60), (32, 120), (64, 300)]
@@ -382,6 +384,23 @@ def _concrete_specs(m, terms):
     return out
 
 
+def _native_linked_ok(specs, stored, src):
+    """linked values: discrete = same index clamped into the own range; continuous = same relative position"""
+    sp_s, v_s = specs[src], stored[src]
+    for sp, v in zip(specs, stored):
+        if v is None or sp is sp_s and v is v_s:
+            continue
+        if sp[0] == 'd' and sp_s[0] == 'd':
+            if v != min(max(v_s, 0), sp[1]-1):
+                return False
+        if sp[0] == 'c' and sp_s[0] == 'c':
+            lhs = (v-sp[1])*(sp_s[2]-sp_s[1])
+            rhs = (v_s-sp_s[1])*(sp[2]-sp[1])
+            if abs(lhs-rhs) > 1e-9*max(1., abs(lhs), abs(rhs)):
+                return False
+    return True
+
+
 def _set_harness(res, kinds, link, src, vdom, extra_claim=None, label='', native_extra=None, prop=None):
     terms, pre = _specs_sym(kinds)
     v = sym_int('v') if vdom == 'int' else sym_real('v')
@@ -395,7 +414,7 @@ def _set_harness(res, kinds, link, src, vdom, extra_claim=None, label='', native
         g.set_des_var_value(nodes[src], v2)
         second = [g.des_var_value(n) for n in nodes]
         return first, second
-    ex = explore(run, pre=pre, max_paths=4000)
+    ex = explore(run, pre=pre, max_paths=4000, unknown_as_feasible=True, query_timeout_ms=5000)
     absorb(res, ex)
     if not ex.complete:
         res['status'] = INCONCLUSIVE
@@ -431,6 +450,9 @@ def _set_harness(res, kinds, link, src, vdom, extra_claim=None, label='', native
                         claims.append(z3.BoolVal(False))
                         continue
                     claims.append(_dom_claim(t, stored[i]))
+                    if t[0] == 'd' and t_src[0] == 'd':
+                        # the same option index, clamped into the linked variable's own option range
+                        claims.append(z3val(stored[i]) == _clamp(z3val(stored[src]), 0, t[1]-1))
                     if t[0] == 'c' and t_src[0] == 'c':
                         # same relative position: (w-dl)(u-l) == (v'-l)(du-dl)
                         claims.append((z3val(stored[i])-t[1].e)*(t_src[2].e-t_src[1].e) ==
@@ -459,6 +481,8 @@ def _set_harness(res, kinds, link, src, vdom, extra_claim=None, label='', native
                     want = min(max(x, 0 if sp[0] == 'd' else sp[1]), sp[1]-1 if sp[0] == 'd' else sp[2])
                     if stored_n[src] != want:
                         ok = False
+                    if ok and native_extra is None:
+                        native_extra = _native_linked_ok
                     if ok and native_extra is not None and not native_extra(specs, stored_n, src):
                         _viol(res, 'set_des_var_value', dict(kind='linked_values_differ', harness=label), dict(link=link, src=src),
                               dict(specs=specs, value=x), dict(stored=stored_n), 'linked variables carry the same index / relative position')
